@@ -13,7 +13,7 @@ RULE = ("seeded configurations of the 16 public functions (dimension sizes pairw
         "parameters, constraint name); each is executed on two independent data draws against a hand-written PyTorch "
         "reference. A case is non-trivial when the reference output is not identically zero and both draws were "
         "fitted; distinct = distinct (function, constraint, dtype, shape/discrete-hyper-parameter) signatures. "
-        "'reject' cases pass an argument the library documents as unsupported / does not have. conv1d hyper-parameters are given as ints or as 1-tuples; unsupported arguments are also handed over positionally.")
+        "'reject' cases pass an argument the library documents as unsupported / does not have. conv1d hyper-parameters are given as ints or as 1-tuples; unsupported arguments are also handed over positionally. A fifth of the calls use the POSITIONAL spelling in the documented parameter order (vmon/api_orders.py); the two draws of a configuration may differ in data magnitude (norms 1e-4..300, elementwise 1e-2..50; low-precision references must agree with their float64 evaluation); cross_entropy also with class-probability targets; a third of the cases repeat the call under torch.no_grad().")
 ASSUMPTIONS = ["PyTorch reference ops and autograd are correct", "float64 summation noise < 1e-10 relative",
                "CPU kernels are deterministic with one thread"]
 IMPORTS = ["unit_scaling.functional", "unit_scaling.scale", "unit_scaling.core.functional", "unit_scaling.docs"]
